@@ -153,9 +153,11 @@ template <typename S>
 std::vector<S> float_values(ld f, bool t_is_int, ld tlo, ld thi, int tdigits, ld tfmax, u64 nrandom, u64 seed) {
     std::vector<S> v;
     const S inf = std::numeric_limits<S>::infinity();
-    const S sp[] = {S(0), -S(0), std::numeric_limits<S>::denorm_min(), -std::numeric_limits<S>::denorm_min(), std::numeric_limits<S>::min(),
-                    std::numeric_limits<S>::max(), -std::numeric_limits<S>::max(), inf, -inf, std::numeric_limits<S>::quiet_NaN(),
-                    -std::numeric_limits<S>::quiet_NaN(), std::numeric_limits<S>::signaling_NaN(), S(1), S(-1), S(0.5), S(-0.5), S(1.5), S(2.5), S(-2.5)};
+    // (explicit casts: this template is also instantiated, though never called, for integral S, where clang rejects a narrowing
+    // braced initialiser such as -max() for an unsigned type)
+    const S sp[] = {S(0), S(-S(0)), S(std::numeric_limits<S>::denorm_min()), S(-std::numeric_limits<S>::denorm_min()), S(std::numeric_limits<S>::min()),
+                    S(std::numeric_limits<S>::max()), S(-std::numeric_limits<S>::max()), S(inf), S(-inf), S(std::numeric_limits<S>::quiet_NaN()),
+                    S(-std::numeric_limits<S>::quiet_NaN()), S(std::numeric_limits<S>::signaling_NaN()), S(1), S(-1), S(0.5), S(-0.5), S(1.5), S(2.5), S(-2.5)};
     for (S s : sp) v.push_back(s);
     if (t_is_int) {
         const ld centers[] = {tlo, tlo - 1, thi, thi + 1, std::ldexp((ld)1, tdigits), std::ldexp((ld)1, tdigits - 1), -std::ldexp((ld)1, tdigits), 0, 1, -1,
